@@ -13,7 +13,7 @@ from ..rng import Streams, weighted
 
 ID = 'C12'
 LEVEL = 'exploration'
-TIERS = {'quick': 8000, 'thorough': 300000}
+TIERS = {'quick': 16000, 'thorough': 600000}
 RULE = ('seeded histories (3-25 ops) on one SqParser and one persistent names mapping: assignments in the four '
         'forms (x = e, c[k] = e, x op= e, c[k] op= e; e a name, nested member, literal containing names, slice, '
         'builtin result, host-kept object) followed by program mutations through either side and host_mutate '
